@@ -497,3 +497,22 @@ def search(seeds, rng):
         msg = oracle(c, obs)
         if msg and classify(c, obs) is None: return c, obs, msg
     return None
+
+
+# arguments on which the translated source of a stream method and the stream machine differ -> one-step histories
+def kernel_cases(name, a):
+    x = dict(a['args']); pos = x.pop('_pos', 0)
+    st = None
+    if name == 'k_st_setbitpos': st = {'op': 'setpos', 'p': x['pos']}
+    elif name == 'k_st_setbytepos': st = {'op': 'setbytepos', 'p': x['bytepos']}
+    elif name == 'k_st_getbytepos': st = {'op': 'getbytepos'}
+    elif name == 'k_st_bytealign': st = {'op': 'bytealign'}
+    elif name == 'k_st_clear': st = {'op': 'clear'}
+    elif name in ('k_st_append', 'k_st_iadd', 'k_st_prepend'): st = {'op': {'k_st_append': 'append', 'k_st_iadd': 'iadd', 'k_st_prepend': 'prepend'}[name], 'bs': x['bs'][0]}
+    elif name in ('k_st_insert', 'k_st_overwrite'):
+        st = {'op': name[5:], 'bs': x['bs'][0], 'pos': x['pos']}
+        if x['bs'][1]: st['selfarg'] = 'bs'
+    elif name == 'k_st_delitem_slice': st = {'op': 'delitem', 'key': x['key']}
+    elif name == 'k_st_delitem_int': st = {'op': 'delitem', 'key': x['key']}
+    if st is None: return []
+    return [{'op': 'history', 'cls': 'BitStream', 'bits': a['self'], 'pos': pos, 'steps': [st]}]
